@@ -151,7 +151,8 @@ class Executor(Base, ContMixin, ExprMixin, CallMixin, LibMixin, StmtMixin, CompM
         ens = c.ensures if view is None else view.ensures
         for i, e in enumerate(ens):
             g = self.spec_bool(e, post, frame)
-            self.oblige(st, g, 'ensures#%d' % i, frame, f.node, e, assume=False)
+            # chain_ensures (opt-in): an earlier postcondition, once proved, is a lemma for the later ones (A, then A => B)
+            self.oblige(st, g, 'ensures#%d' % i, frame, f.node, e, assume=bool(getattr(c, 'chain_ensures', False)))
         for exc in c.raises_exact:
             g = self.spec_bool(c.raises[exc], pre, frame)
             self.oblige(st, z3.Not(g), 'raises-exact[%s]' % exc, frame, f.node,
